@@ -384,20 +384,23 @@ class SymEx:
 
     # ---- statements ---------------------------------------------------------
     def run(self, body: list[ast.stmt]):
+        self.exec_block(body)
+        return self.returned
+
+    def exec_block(self, body: list[ast.stmt]):
+        """statements in sequence; an `if` whose body ends in return/raise absorbs the rest as its else-branch"""
         for k, st in enumerate(body):
             if self.env is RAISES:
                 break
             if self.returned is not None:
                 self.fail(st, "statement after return")
-            if (isinstance(st, ast.If) and not st.orelse and st.body
-                    and isinstance(st.body[-1], (ast.Return, ast.Raise)) and body[k + 1:]):
-                # early exit: the rest of the block is the else-branch
-                st = ast.If(test=st.test, body=st.body, orelse=body[k + 1:])
-                ast.copy_location(st, body[k])
-                self.stmt(st)
+            if (isinstance(st, ast.If) and st.body and isinstance(st.body[-1], (ast.Return, ast.Raise))
+                    and body[k + 1:]):
+                st2 = ast.If(test=st.test, body=st.body, orelse=list(st.orelse) + body[k + 1:])
+                ast.copy_location(st2, st)
+                self.stmt(st2)
                 break
             self.stmt(st)
-        return self.returned
 
     def stmt(self, st: ast.stmt):
         if isinstance(st, ast.Expr) and isinstance(st.value, ast.Constant) and isinstance(st.value.value, str):
@@ -497,19 +500,13 @@ class SymEx:
         self.fail(st, "statement form")
 
     def block(self, body):
-        for s in body:
-            self.stmt(s)
-            if self.env is RAISES:
-                return
+        self.exec_block(body)
 
     def branch(self, body, before):
         saved_env, saved_ret = self.env, self.returned
         self.env, self.returned = dict(before), None
         try:
-            for s in body:
-                self.stmt(s)
-                if self.env is RAISES or self.returned is not None:
-                    break
+            self.exec_block(body)
             return self.env, self.returned
         finally:
             self.env, self.returned = saved_env, saved_ret
